@@ -38,18 +38,17 @@ func (valdec ptrDecoder) Decode(dec *Decoder, p interface{}, tag byte) {
 		// a reference to an object of this very pointer type: alias it, so that
 		// shared and cyclic structures keep their shape instead of being copied
 		// (for a cycle, copied from an object that is still incomplete)
-		o := dec.readReferred()
-		if o == nil && dec.Error != nil {
-			return
-		}
-		if reflect.TypeOf(o) == valdec.t.Type1() {
+		if o, ok := dec.peekReferred(); ok && reflect.TypeOf(o) == valdec.t.Type1() {
+			dec.readReferred()
 			*ptr = reflect2.PtrOf(o)
 			return
 		}
+		// anything else is left to the element decoder, which knows the
+		// conversions of its type
 		if *ptr == nil {
 			*ptr = valdec.et.UnsafeNew()
 		}
-		dec.convertReference(o, valdec.et.PackEFace(*ptr))
+		valdec.elemDecoder.Decode(dec, valdec.et.PackEFace(*ptr), tag)
 	default:
 		if *ptr == nil {
 			*ptr = valdec.et.UnsafeNew()
